@@ -274,6 +274,177 @@ Proof.
       unfold list_sum in *. lia.
 Qed.
 
+(* -------------------------------------- acceptance of recorded consumer histories *)
+Lemma all_nil_iff rem : all_nil rem = true <-> forall p, nth p rem [] = [].
+Proof.
+  unfold all_nil. induction rem as [|h t IH]; cbn.
+  - split; [intros _ [|p]; reflexivity|reflexivity].
+  - rewrite andb_true_iff, IH. split.
+    + intros [H1 H2] [|p]; [destruct h; [reflexivity|discriminate]|apply H2].
+    + intro H. split; [specialize (H 0); cbn in H; subst h; reflexivity|intro p; apply (H (S p))].
+Qed.
+
+Lemma take_elems_app rem l1 l2 :
+  take_elems rem (l1 ++ l2) = match take_elems rem l1 with Some r => take_elems r l2 | None => None end.
+Proof.
+  revert rem; induction l1 as [|e t IH]; intro rem; cbn; [reflexivity|].
+  destruct (take_elem rem e); [apply IH|reflexivity].
+Qed.
+
+Lemma take_batches_concat rem bs : take_batches rem bs = take_elems rem (concat bs).
+Proof.
+  revert rem; induction bs as [|b t IH]; intro rem; cbn; [reflexivity|].
+  rewrite take_elems_app. destruct (take_elems rem b); [apply IH|reflexivity].
+Qed.
+
+(* soundness: an accepted history is produced by a schedule of the model *)
+Lemma take_elems_sched b : forall s rem',
+  take_elems (ts_rem s) b = Some rem' ->
+  let s' := tb_run s (map (fun e => TProd (fst e)) b) in
+  ts_buf s' = ts_buf s ++ b /\ ts_rem s' = rem' /\ ts_batches s' = ts_batches s /\ ts_obs s' = ts_obs s.
+Proof.
+  induction b as [|e t IH]; intros s rem' H; cbn in H.
+  - inversion H. cbn. rewrite app_nil_r. auto.
+  - unfold take_elem in H. destruct e as [p v]. cbn [fst snd] in H.
+    destruct (nth p (ts_rem s) []) as [|w r] eqn:En; [discriminate|].
+    destruct (N.eqb w v) eqn:Ev; [|discriminate]. apply N.eqb_eq in Ev. subst w.
+    cbn [map tb_run fold_left fst]. change (fold_left tb_sys_step ?l ?x) with (tb_run x l).
+    set (s1 := tb_sys_step s (TProd p)).
+    assert (H1 : ts_buf s1 = ts_buf s ++ [(p, v)] /\ ts_rem s1 = upd (ts_rem s) p r
+                 /\ ts_batches s1 = ts_batches s /\ ts_obs s1 = ts_obs s).
+    { unfold s1. cbn [tb_sys_step]. rewrite En. cbn. auto. }
+    destruct H1 as [B1 [R1 [C1 O1]]]. rewrite <- R1 in H.
+    destruct (IH s1 rem' H) as [B2 [R2 [C2 O2]]]. cbn zeta.
+    rewrite B2, R2, C2, O2, B1, C1, O1, <- app_assoc. cbn. auto.
+Qed.
+
+Definition sched_of (bs : list (list elem)) : list tb_actor :=
+  concat (map (fun b => map (fun e => TProd (fst e)) b ++ [TCons KConsume]) bs).
+
+Lemma take_batches_sched bs : forall s rem',
+  ts_buf s = [] -> take_batches (ts_rem s) bs = Some rem' ->
+  let s' := tb_run s (sched_of bs) in
+  ts_buf s' = [] /\ ts_rem s' = rem' /\ ts_batches s' = ts_batches s ++ bs.
+Proof.
+  induction bs as [|b t IH]; intros s rem' Hb H; cbn in H.
+  - inversion H. cbn. rewrite app_nil_r. auto.
+  - destruct (take_elems (ts_rem s) b) as [r1|] eqn:E1; [|discriminate].
+    destruct (take_elems_sched b s r1 E1) as [B1 [R1 [C1 _]]].
+    unfold sched_of. cbn [map concat]. rewrite <- app_assoc. cbn zeta. rewrite !tb_run_app.
+    fold (sched_of t).
+    set (s1 := tb_run s (map (fun e => TProd (fst e)) b)) in *.
+    set (s2 := tb_run s1 [TCons KConsume]).
+    assert (H2 : ts_buf s2 = [] /\ ts_rem s2 = r1 /\ ts_batches s2 = ts_batches s ++ [b]).
+    { unfold s2. cbn. rewrite B1, Hb, R1, C1. cbn. auto. }
+    destruct H2 as [B2 [R2 C2]]. rewrite <- R2 in H.
+    destruct (IH s2 rem' B2 H) as [B3 [R3 C3]]. cbn zeta in B3, R3, C3.
+    rewrite B3, R3, C3, C2, <- app_assoc. cbn. auto.
+Qed.
+
+Lemma tb_accept_sound_proof progs bs :
+  tb_accept progs bs = true ->
+  exists sched, let s := tb_run (tb_init progs) sched in
+    ts_batches s = bs /\ ts_buf s = [] /\ forall p, nth p (ts_rem s) [] = [].
+Proof.
+  unfold tb_accept. destruct (take_batches progs bs) as [rem|] eqn:E; [|discriminate]. intro Hn.
+  exists (sched_of bs).
+  destruct (take_batches_sched bs (tb_init progs) rem eq_refl E) as [B [R C]]. cbn zeta in *.
+  rewrite B, R, C. cbn. split; [reflexivity|]. split; [reflexivity|]. apply all_nil_iff. exact Hn.
+Qed.
+
+(* completeness: every complete history of the model is accepted *)
+Lemma by_prod_cons_same p v l : by_prod p ((p, v) :: l) = (p, v) :: by_prod p l.
+Proof. unfold by_prod. cbn. rewrite Nat.eqb_refl. reflexivity. Qed.
+Lemma by_prod_cons_other p q v l : q <> p -> by_prod p ((q, v) :: l) = by_prod p l.
+Proof. intro H. unfold by_prod. cbn. destruct (Nat.eqb q p) eqn:E; [apply Nat.eqb_eq in E; contradiction|reflexivity]. Qed.
+
+Lemma take_elems_complete l : forall rem,
+  (forall p, exists post, nth p rem [] = map snd (by_prod p l) ++ post) ->
+  exists rem', take_elems rem l = Some rem' /\
+    forall p, nth p rem [] = map snd (by_prod p l) ++ nth p rem' [].
+Proof.
+  induction l as [|[p0 v] t IH]; intros rem H.
+  - exists rem. split; [reflexivity|]. intro p. reflexivity.
+  - destruct (H p0) as [post0 H0]. rewrite by_prod_cons_same in H0. cbn in H0.
+    assert (Hlt : p0 < length rem).
+    { destruct (Nat.lt_ge_cases p0 (length rem)) as [L|G]; [exact L|].
+      rewrite nth_overflow in H0 by exact G. discriminate. }
+    cbn [take_elems]. unfold take_elem. cbn [fst snd]. rewrite H0, N.eqb_refl.
+    set (rem1 := upd rem p0 (map snd (by_prod p0 t) ++ post0)).
+    assert (H1 : forall p, exists post, nth p rem1 [] = map snd (by_prod p t) ++ post).
+    { intro p. unfold rem1. destruct (Nat.eq_dec p0 p) as [E|N].
+      - subst p. rewrite nth_upd_same by exact Hlt. eauto.
+      - rewrite nth_upd_other by exact N. destruct (H p) as [post Hp].
+        rewrite by_prod_cons_other in Hp by exact N. eauto. }
+    destruct (IH rem1 H1) as [rem' [T1 T2]]. exists rem'. split; [exact T1|].
+    intro p. destruct (Nat.eq_dec p0 p) as [E|N].
+    + subst p. rewrite H0, by_prod_cons_same. cbn. f_equal.
+      specialize (T2 p0). unfold rem1 in T2. rewrite nth_upd_same in T2 by exact Hlt.
+      apply app_inv_head in T2. rewrite T2. reflexivity.
+    + specialize (T2 p). unfold rem1 in T2. rewrite nth_upd_other in T2 by exact N.
+      rewrite by_prod_cons_other by exact N. exact T2.
+Qed.
+
+Lemma tb_accept_complete_proof progs sched :
+  let s := tb_run (tb_init progs) sched in
+  (forall p, nth p (ts_rem s) [] = []) -> ts_buf s = [] ->
+  tb_accept progs (ts_batches s) = true.
+Proof.
+  intros s Hr Hb. unfold tb_accept. rewrite take_batches_concat.
+  assert (Hc : forall p, by_prod p (concat (ts_batches s)) = map (pair p) (nth p progs []))
+    by (intro p; apply (tbuf_complete progs sched p (Hr p) Hb)).
+  assert (Hm : forall (p : nat) (l : list N), map (@snd nat N) (map (pair p) l) = l)
+    by (intros p l; rewrite map_map; cbn; apply map_id).
+  assert (H : forall p, exists post, nth p progs [] = map snd (by_prod p (concat (ts_batches s))) ++ post).
+  { intro p. exists []. rewrite Hc, Hm, app_nil_r. reflexivity. }
+  destruct (take_elems_complete _ _ H) as [rem' [T1 T2]]. rewrite T1. apply all_nil_iff. intro p.
+  specialize (T2 p). rewrite Hc, Hm in T2.
+  rewrite <- (app_nil_r (nth p progs [])) in T2 at 1.
+  apply app_inv_head in T2. symmetry. exact T2.
+Qed.
+
+(* one consumer round: size(), then empty(), then consume(), with producers running in
+   between: consume() returns at least what size() announced, and something if empty()
+   said false (only the consumer removes elements) *)
+Lemma prods_grow l : forall s, forallb is_prod l = true ->
+  exists suf, ts_buf (tb_run s l) = ts_buf s ++ suf /\ ts_batches (tb_run s l) = ts_batches s
+              /\ ts_obs (tb_run s l) = ts_obs s.
+Proof.
+  induction l as [|a t IH]; intros s H.
+  - exists []. cbn. rewrite app_nil_r. auto.
+  - cbn in H. apply andb_true_iff in H as [Ha Ht]. destruct a as [p|c]; [|discriminate].
+    cbn [tb_run fold_left]. change (fold_left tb_sys_step t ?x) with (tb_run x t).
+    destruct (IH (tb_sys_step s (TProd p)) Ht) as [suf [B [C O]]]. rewrite B, C, O.
+    cbn [tb_sys_step]. destruct (nth p (ts_rem s) []) as [|v r].
+    + exists suf. auto.
+    + cbn. exists ((p, v) :: suf). rewrite <- app_assoc. auto.
+Qed.
+
+Lemma lenN_spec {A} (l : list A) acc : lenN l acc = (acc + N.of_nat (length l))%N.
+Proof. revert acc; induction l as [|x t IH]; intro acc; cbn [lenN length]; [lia|]. rewrite IH. lia. Qed.
+
+Lemma tbuf_round_proof s ps1 ps2 :
+  forallb is_prod ps1 = true -> forallb is_prod ps2 = true ->
+  let s' := tb_run s (TCons KSize :: ps1 ++ TCons KEmpty :: ps2 ++ [TCons KConsume]) in
+  exists n e b, ts_obs s' = ts_obs s ++ [TONum n; TOBool e] /\ ts_batches s' = ts_batches s ++ [b]
+                /\ ts_buf s' = [] /\ round_ok (n, e, b) = true.
+Proof.
+  intros H1 H2. cbn [tb_run fold_left]. change (fold_left tb_sys_step ?l ?x) with (tb_run x l).
+  rewrite tb_run_app. cbn [tb_run fold_left]. change (fold_left tb_sys_step ?l ?x) with (tb_run x l).
+  rewrite tb_run_app.
+  set (s1 := tb_sys_step s (TCons KSize)).
+  destruct (prods_grow ps1 s1 H1) as [suf1 [B1 [C1 O1]]]. set (s2 := tb_run s1 ps1) in *.
+  set (s3 := tb_sys_step s2 (TCons KEmpty)).
+  destruct (prods_grow ps2 s3 H2) as [suf2 [B2 [C2 O2]]]. set (s4 := tb_run s3 ps2) in *.
+  exists (N.of_nat (length (ts_buf s))), (match ts_buf s2 with [] => true | _ => false end), (ts_buf s4).
+  cbn. rewrite O2, C2. unfold s3. cbn. rewrite O1, C1. unfold s1. cbn. rewrite <- app_assoc. cbn.
+  repeat split.
+  apply andb_true_iff. split.
+  - apply N.leb_le. rewrite lenN_spec, B2. unfold s3. cbn. rewrite B1. unfold s1. cbn.
+    rewrite !app_length. lia.
+  - rewrite B2. unfold s3. cbn. destruct (ts_buf s2); cbn; reflexivity.
+Qed.
+
 Lemma table_old_refuted : lockset_ok table_old = false /\ ~ race_free table_old.
 Proof.
   split; [vm_compute; reflexivity|]. intro H.
